@@ -5,4 +5,12 @@ CHECKS = {
         technique="property-based testing: exhaustive small-scope enumeration + Hypothesis-generated large live-range sets against a validity predicate (non-overlap, alignment, total, iteration bound)",
         text="Every multiset of <=3 (quick) / <=5 (thorough) live ranges over 5 time steps and a size lattice, and thousands of random sets of up to 400 ranges, are given to the three real allocators; addresses are read back through Tensor.address and checked by an independent predicate. Exploration: complete inside the stated small scope, sampled beyond.",
         note="trusts only Python and the harness' predicate; Vela's own verify_allocation is exercised but not relied on"),
+    "C17": dict(
+        technique="property-based testing: generated word lists (boundary lengths, one per length bit, adversarial contents) x 6 accelerators against an independent payload parser; same parser over command_stream tensors of generated compiled networks",
+        text="npu_create_driver_payload is called on thousands of generated word lists including every power-of-two boundary up to 2^24; an independent parser with a pinned accelerator table checks COP1, the config/id words, NOP padding, 16-byte alignment, the 24-bit length and the words; 2^24 words must be rejected.",
+        note="trusted base: pinned accelerator/ID table lib/hw.py, parser lib/payload.py"),
+    "C09": dict(
+        technique="property-based testing: exhaustive float32 mantissa sweeps + Hypothesis float64/triple generation against exact rational arithmetic and a TFLite QuantizeMultiplier / Add-Sub-Mul Prepare reference; exhaustive accumulator sweeps for average-pool divisors",
+        text="quantise_scale/reduced_quantise_scale on all 2^23 mantissas of chosen exponents, all exponents, doubles next to powers of two; quantise_pooling_scale on every reachable accumulator for windows <=256 (8-bit) and ties/ends up to 65536; add/sub/mul triples against the TFLite derivation, with the argument types production uses (np.float32).",
+        note="trusted base: tflref.py re-derivation of the TFLite reference (QuantizeMultiplier, Add/Sub Prepare), Python Fractions"),
 }
